@@ -493,19 +493,19 @@ theorem wfield_nextLineStart (hwf : Text.WF (wa ++ (pre' ++ suf') ++ wz))
 
 end fields
 
-/-! ### the recorded finding F13c, concretely -/
+/-! ### the former finding F13c (repaired in ef86ab4), concretely -/
 
 theorem measureTo_here (m : Metrics) (p : Pos) (suf : Text) :
     measureTo m p.byte p suf = .ok p := by
   rw [measureTo]; simp
 
 /-- window = byte 1..2 of `a⇥` (LF, tab 4): the window's `previous_position` at its end
-answers column 0, the parent's answer is column 1. -/
-theorem finding_F13c_prev :
-    Source.previousPosition ⟨[⟨9, 1, 0⟩], ⟨.lf, 4⟩, ⟨1, 0, 1⟩⟩ ⟨2, 0, 4⟩ = .ok (some ⟨1, 0, 0⟩) := by
+now answers the parent's answer, column 1 (before the repair it answered column 0). -/
+theorem former_F13c_prev :
+    Source.previousPosition ⟨[⟨9, 1, 0⟩], ⟨.lf, 4⟩, ⟨1, 0, 1⟩⟩ ⟨2, 0, 4⟩ = .ok (some ⟨1, 0, 1⟩) := by
   have h := measureTo_here ⟨.lf, 4⟩ ⟨0, 0, 0⟩ [⟨9, 1, 0⟩]
   simp [Source.previousPosition, Source.withByteOffset, csub, Tephra.previousPosition, splitAtByte,
-    breakBefore, lbCodes, stripCodes, lineStartPosition, lineStartRev, h]
+    breakBefore, lbCodes, stripCodes, lineStartPosition, lineStartRev, h, Tephra.endPosition, bytes]
 
 theorem Source.ext' {s1 s2 : Source} (h1 : s1.text = s2.text) (h2 : s1.metrics = s2.metrics)
     (h3 : s1.offset = s2.offset) : s1 = s2 := by
